@@ -93,4 +93,6 @@ theorem N3_dect_dist_ppp_meaning (hc : c * c = 2)
   · rw [DK3_apply hc]
     have := dkAct_const hO 1 (M3.sym h00 h11 h22 h01 h02 h12)
     simp only [M3.sym] at this ⊢
-    rw [this]; congr 1; m3_riend TfelVerif.C05.PropsDecTb
+    rw [this]; congr 1; m3_ring
+
+end TfelVerif.C05.PropsDecTb
